@@ -16,8 +16,9 @@ TIndent == /\ IsRec("WIndent")
            /\ LET r == Rec[l]
                   evs == [i \in 1..Len(r.evs) |-> [k |-> r.evs[i][1], b |-> r.evs[i][2]]]
                   ind == [on |-> TRUE, ch |-> r.ch, size |-> r.size] IN
-              /\ r.out = Indented(evs, ind)                 \* C19, declarative form
-              /\ r.out = Written(evs, ind)                  \* and the machine
+              /\ IndentConforms(evs, r.out, ind)            \* C19 as stated (P): white space only where it may be
+              /\ (Len(r.out) <= 300 => DropWs(ReadBack(r.out)) = DropWs(ReadBack(r.plain)))   \* (the reader spec is quadratic: short outputs only)
+              /\ (r.out # Written(evs, ind) => PrintT(<<"DRIFT", ToJson("indent-amount")>>))      \* the machine's exact bytes: tag I
               /\ r.plain = Written(evs, NoIndent)
               /\ r.same_async = 1
 TBuild == /\ IsRec("WBuild")
